@@ -33,10 +33,12 @@ def run(ctx):
     rule = 'C18.survivor-agreement'
     sums = [(bi, t, e) for bi, t, e in q.calls_named(f, 'sum')]
     filt = None
+    filts = []
     for bi, t, e in sums:
         fe = q.find_sub(e, lambda s: q.is_call(s, 'filter'))
         if fe is not None:
             filt = (bi, fe, e)
+            filts.append(filt)
     divs = list(e2.f64_divisions(f))
     text = 'the entries summed into the normaliser and the entries kept are selected by the same comparison against the same threshold; all others become 0.0'
     if filt is None or not divs:
@@ -56,6 +58,23 @@ def run(ctx):
                         q.find_sub(side, lambda x: x[0] == 'param' and x[1] == ip) is None:
                     thr_in_closure = r
         for dv in divs:
+            # several copies of the loop (a per-player helper spliced in once per player): each division goes with the
+            # filtered sum it divides by
+            mine = [x for x in filts if norm(x[2]) == norm(dv['den'])]
+            if mine and mine[0] is not filt:
+                filt = mine[0]
+                pred, cf, agg = q.closure_pred(lib, filt[1][2][1])
+                ctx.touch(cf)
+                thr_in_closure = None
+                if pred:
+                    ip = q.item_param(cf)
+                    for side in (pred[1], pred[2]):
+                        if side is None:
+                            continue
+                        r = norm(q.resolve_captures(lib, cf, side)) if cf.is_closure else norm(side)
+                        if q.find_sub(r, lambda x: x[0] == 'param' and x[1] == ip and cf.is_closure is False) is None and \
+                                q.find_sub(side, lambda x: x[0] == 'param' and x[1] == ip) is None:
+                            thr_in_closure = r
             # guard of the division that compares the numerator (the element) with something
             num = norm(dv['num'])
             g = None
